@@ -185,7 +185,8 @@ def write_evidence(pid, tier, seed, units, results, known, violations, undecided
     bounded = []
     for u in units:
         r = results[u]
-        n_obl = r.verified + r.errors
+        kf_fns = set(f['fn'] for (uu, f, k) in known if uu == u)
+        n_obl = r.verified + r.errors - len(kf_fns)  # functions whose only failures are listed known findings are reported separately
         obligations += n_obl
         discharged += r.verified
         for a in r.assumptions:
@@ -228,6 +229,7 @@ def write_evidence(pid, tier, seed, units, results, known, violations, undecided
             'units': per_unit,
             'bounded_standins': bounded,
             'known_findings_printed': [k['what'] for (_, _, k) in known],
+            'known_finding_obligations_not_counted': sorted(set(f['obligation'] for (_, f, _) in known)),
             'undecided': [{'unit': u, 'reason': w[:300]} for (u, w) in undecided],
             'thorough': extra,
         },
